@@ -17,6 +17,9 @@
            | (5 [k [t]]) a new logger is derived from the current one and becomes the current one:
                k = 0 With(fields) | 1 WithLazy(fields) | 2 Named | 3 WithOptions(AddCallerSkip)
                  | 4 Sugar().Desugar() | 5 WithOptions(IncreaseLevel(zapcore.Level t))
+                 | 6 WithOptions(zap.Hooks(hook t)) | 7 WithOptions(WrapCore(c => zapcore.RegisterHooks(c, hook t))):
+                   one more hook, number t, registered on the CURRENT logger's core - the loggers derived
+                   before (the parent, its other children: the siblings) keep their own hook lists
            | (6 a route hk #text) the text is sent to cell a by route (C05/Updates.v: 1 UnmarshalText,
                2 flag.TextVar, 3 encoding/json, 4 yaml.v3, 5 HTTP PUT with a JSON body, 6 HTTP PUT with a
                form) through a handle of kind hk (0 the variable the cores were built from, 1 a copy of
@@ -127,6 +130,8 @@ Definition derive (ok : world -> core -> enabler -> bool) (w : world) (c : core)
   | 0 => with_core c                                     (* l.core = l.core.With(fields) *)
   | 1 => Lazy c                                          (* WrapCore(NewLazyWith(core, fields)) *)
   | 5 => if ok w c (ELvl t) then Filter c (ELvl t) else c
+  | 6 | 7 => Hooked c (Z.to_nat t)                       (* l.core = RegisterHooks(l.core, hook t): a NEW
+                                                            hooked core; the hook list of c is a value *)
   | _ => c                                               (* clone(): the same core *)
   end.
 
@@ -274,3 +279,36 @@ Definition spec (i o : sx) : bool :=
   let '(c, nerr) := build_with spec_increase_ok w0 (sx_nth i 0) in
   Nat.eqb (sx_n (sx_nth o 0)) nerr &&
   spec_ops obs w0 c [c] (map dec_op (sx_l (sx_nth i 3))) (sx_l (sx_nth o 1)).
+
+(* ---------------- sibling loggers: hook lists are values ---------------- *)
+(* Any number of loggers derived from each other (root = number 0), in any order, by the derive kinds
+   above, and calls through any of them at any time.  Model: every derivation builds a new core VALUE
+   from the core of the logger it starts from ([derive]); nothing that happens later - in particular a
+   second registration on the same parent - touches a core built earlier. *)
+Inductive sop :=
+| SDerive (j : nat) (k : Z) (t : level)   (* logger number (length so far) := derive kind k of logger j *)
+| SCall (j : nat) (f : fam) (l : level).  (* a call through logger j *)
+
+Fixpoint srun (w : world) (root : core) (cs : list core) (ops : list sop) : list (list nat * list nat) :=
+  match ops with
+  | [] => []
+  | SDerive j k t :: r => srun w root (cs ++ [derive increase_ok w (nth j cs root) k t]) r
+  | SCall j f l :: r =>
+      let ws := call_writers w (nth j cs root) f l in (leaves_of ws, hooks_of ws) :: srun w root cs r
+  end.
+
+(* Specification, written without cores: a logger IS the list of hook numbers registered on its own
+   derivation path from the root, in registration order.  A call through logger j delivers what the
+   root delivers, fires the hooks of the root's tree that are due and then - iff the entry is
+   accepted - exactly the hooks on j's own path, once each, and no hook of any sibling. *)
+Definition registers_hook (k : Z) : bool := (k =? 6) || (k =? 7).
+Definition keeps_delivery (o : sop) : bool :=
+  match o with SDerive _ k _ => negb (k =? 5) | SCall _ _ _ => true end.
+Fixpoint sspec (w : world) (root : core) (ps : list (list nat)) (ops : list sop) : list (list nat * list nat) :=
+  match ops with
+  | [] => []
+  | SDerive j k t :: r =>
+      sspec w root (ps ++ [if registers_hook k then nth j ps [] ++ [Z.to_nat t] else nth j ps []]) r
+  | SCall j f l :: r =>
+      (delivered w root l, hooks_due w root l ++ (if accepts w root l then nth j ps [] else [])) :: sspec w root ps r
+  end.
